@@ -10,8 +10,35 @@ from mc import alphabets as A
 from mc import refcodec, spec_table
 
 
+_THOROUGH = False
+EXTRA = {
+    'octet': [2, 126, 254],
+    'short': [2, 257, 65534],
+    'long': [2, 2**24, 2**31 + 1, 2**32 - 2],
+    'longlong': [2, 2**31, 2**40, 2**62],
+    'shortstr': ['a' * 254, 'ß' * 100, ' ', '\x7f', 'A'],
+    'longstr': ['x' * 4096, 'é' * 129],
+}
+
+
+def set_tier(tier):
+    """thorough widens the per-type alphabets (and so every full product)."""
+    global _THOROUGH
+    _THOROUGH = tier == 'thorough'
+
+
 def arg_domain(method, name, wire_type, wide=False):
     """Spec-valid alphabet of one argument, simplest first."""
+    base = _arg_domain(method, name, wire_type, wide)
+    if _THOROUGH and len(base) > 1 and wire_type in EXTRA:
+        constrained = any(c == name for c, _k in
+                          spec_table.CONSTRAINTS.get(method.name, []))
+        if not constrained:
+            base = base + [v for v in EXTRA[wire_type] if v not in base]
+    return base
+
+
+def _arg_domain(method, name, wire_type, wide=False):
     for cname, kind in spec_table.CONSTRAINTS.get(method.name, []):
         if cname != name:
             continue
